@@ -6,6 +6,7 @@ import (
 	"strconv"
 	"strings"
 	"sync"
+	"sync/atomic"
 )
 
 // verif-only exports used by the external model-based checking harness.
@@ -145,3 +146,8 @@ func VerifChannelSnapshot(c *Channel) (int, int, int, int, int) {
 
 // VerifName returns the instance name the hooks use for a channel.
 func VerifName(c *Channel) string { return vc(c) }
+
+var verifInstances int64
+
+// verifIDBase makes client ids unique across the nsqd instances of one process (tests start many)
+func verifIDBase() int64 { return (atomic.AddInt64(&verifInstances, 1) - 1) * 1000000 }
